@@ -7,10 +7,14 @@ for sid in sys.argv[1:]:
     notes = open(f"{d}/notes.md", encoding="utf-8").read() if os.path.exists(f"{d}/notes.md") else ""
     confirm = open(f"{d}/confirm.txt").read().strip() if os.path.exists(f"{d}/confirm.txt") else ""
     rows = []
-    if os.path.exists(f"{d}/matrix.txt"):
-        for line in open(f"{d}/matrix.txt", encoding="utf-8"):
+    seen = set()
+    for fn in ("target.txt", "matrix.txt"):
+        if not os.path.exists(f"{d}/{fn}"):
+            continue
+        for line in open(f"{d}/{fn}", encoding="utf-8"):
             m = re.match(r"(C\d+) rc=(\d) violations=(\d+) ?(.*)", line.strip())
-            if m:
+            if m and m.group(1) not in seen:
+                seen.add(m.group(1))
                 rows.append({"check": m.group(1), "rc": int(m.group(2)), "violation_signatures": int(m.group(3)), "first": m.group(4)})
     prop = sid.split("-")[0]
     detected = [r["check"] for r in rows if r["rc"] == 1]
@@ -20,7 +24,8 @@ for sid in sys.argv[1:]:
         "origin": "written by an independent sub-agent that was given only the property text and a scratch worktree of /repo (nothing from /verif)",
         "needs_to_manifest": notes.strip(),
         "confirmed_in_scratch_worktree": confirm or "see tools/seed_confirm.sh",
-        "what_was_run": "tools/seed_confirm.sh (demo passes unchanged, fails with patch; 273 repo tests pass with patch) and tools/seed_matrix.sh (every registered quick check against a scratch worktree with the patch applied)",
+        "what_was_run": "tools/seed_confirm.sh in a scratch worktree (demo exits 0 unchanged and 1 with the patch; the repository's 273 tests pass with the patch) and tools/seed_matrix.sh (quick checks against a scratch worktree with the patch applied: the target check always, target.txt; every registered check where matrix.txt exists)",
+        "checks_run": sorted(seen),
         "detected_by_quick_checks": detected,
         "detected_by_target_check": prop in detected,
         "harness_errors": [r["check"] for r in rows if r["rc"] == 2],
